@@ -297,6 +297,23 @@ func (a *Adversary) forgedProof(as int, h, pv uint64, b *fakes.Block, mode int) 
 	return &ProofSpec{PP: ppr, PPSender: pps, P: pr, PSenders: ps}
 }
 
+// mixedProof: genuine PREPARE signatures (observed, for the block really proposed in view pv) under a PREPREPARE reference that a
+// Byzantine ex-leader of pv signs for ANOTHER block x: the two references of the proof name different hashes.
+func (a *Adversary) mixedProof(h, v uint64, x *fakes.Block) *ProofSpec {
+	p, _ := a.bestProof(h, v, 0)
+	if p == nil {
+		return nil
+	}
+	leaderIdx := a.w.LeaderIdx(h, p.PP.V)
+	if !a.owns(leaderIdx) {
+		return nil
+	}
+	q := *p
+	q.PP = a.ref(TPP, h, p.PP.V, x.Hash())
+	q.PPSender = a.signedRef(leaderIdx, q.PP)
+	return &q
+}
+
 func (a *Adversary) vote(as int, h, v uint64, proof *ProofSpec) VoteSpec {
 	vs := VoteSpec{Type: TVC, Inst: uint64(Instance) + a.instOff, H: h, V: v, Proof: proof}
 	vs.Sender = SigSpec{ID: a.w.IDs[as], Sig: a.sign(as, h, vs.HeaderRaw())}
@@ -380,6 +397,12 @@ func (a *Adversary) Do(s *ByzSpec) {
 		case 3: // proof of a view that is not earlier
 			blk = a.block(h, par(s, 2))
 			proof = a.forgedProof(s.As, h, v+uint64(par(s, 3)%2), blk, 0)
+		case 4: // genuine PREPARE signatures under a PREPREPARE reference for another block
+			blk = a.block(h, par(s, 2))
+			proof = a.mixedProof(h, v, blk)
+			if proof == nil {
+				blk = nil
+			}
 		}
 		switch par(s, 1) {
 		case 1:
@@ -388,6 +411,10 @@ func (a *Adversary) Do(s *ByzSpec) {
 			blk = a.block(h, par(s, 2)+1)
 		}
 		vs := a.vote(s.As, h, v, proof)
+		if par(s, 4)%4 == 3 { // a correctly signed vote whose header carries another message type
+			vs.Type = []uint16{TC, TP, TNV, TPP}[par(s, 3)%4]
+			vs.Sender = SigSpec{ID: w.IDs[s.As], Sig: a.sign(s.As, h, vs.HeaderRaw())}
+		}
 		to := s.To
 		if par(s, 5) == 0 { // normally addressed to the leader of v
 			to = 1 << uint(w.LeaderIdx(h, v))
@@ -466,7 +493,7 @@ func (a *Adversary) newView(s *ByzSpec) {
 	}
 	var ownProof *ProofSpec
 	var ownBlock *fakes.Block
-	switch par(s, 1) % 4 {
+	switch par(s, 1) % 5 {
 	case 1:
 		ownProof, ownBlock = a.bestProof(h, v, 0)
 	case 2:
@@ -474,6 +501,11 @@ func (a *Adversary) newView(s *ByzSpec) {
 	case 3:
 		ownBlock = a.block(h, par(s, 2))
 		ownProof = a.forgedProof(s.As, h, uint64(par(s, 5))%v, ownBlock, 0)
+	case 4: // genuine PREPARE signatures under a PREPREPARE reference for another block (which then gets re-proposed)
+		ownBlock = a.block(h, par(s, 2))
+		if ownProof = a.mixedProof(h, v, ownBlock); ownProof == nil {
+			ownBlock = nil
+		}
 	}
 	if mode != 3 {
 		for _, b := range w.Cfg.Byz {
@@ -498,6 +530,18 @@ func (a *Adversary) newView(s *ByzSpec) {
 				voteBlocks = append(voteBlocks, nil)
 			}
 		}
+	}
+	if par(s, 5)%2 == 1 && len(votes) > 1 { // the adversary's own votes first (matters when several proofs claim the same view)
+		var mine, others []VoteSpec
+		var mineB, othersB []*fakes.Block
+		for i, vt := range votes {
+			if a.owns(w.IdxOf(primitives.MemberId(vt.Sender.ID))) {
+				mine, mineB = append(mine, vt), append(mineB, voteBlocks[i])
+			} else {
+				others, othersB = append(others, vt), append(othersB, voteBlocks[i])
+			}
+		}
+		votes, voteBlocks = append(mine, others...), append(mineB, othersB...)
 	}
 	// proposal
 	var blk *fakes.Block
@@ -543,5 +587,5 @@ func (a *Adversary) newView(s *ByzSpec) {
 	spec := &MsgSpec{Union: UNV, NVType: TNV, NVInst: uint64(Instance) + a.instOff, NVH: h, NVV: v, Votes: votes, PPRef: &ppr, PPSend: &pps, Block: blk}
 	spec.Sender = SigSpec{ID: w.IDs[s.As], Sig: a.sign(s.As, h, spec.NVHeaderRaw())}
 	a.Proposals = append(a.Proposals, AdvProposal{h, ppv, hash, blk})
-	a.inject(fmt.Sprintf("nv:votes%d:proof%d:pp%d", mode, par(s, 1)%4, par(s, 3)%4), spec, s.To)
+	a.inject(fmt.Sprintf("nv:votes%d:proof%d:pp%d", mode, par(s, 1)%5, par(s, 3)%4), spec, s.To)
 }
